@@ -183,13 +183,23 @@ fn compare_state(rep: &mut Report, tol_: &Tol, tag: &str, idx: u64, step: usize,
 fn main() {
     let cli = Cli::parse();
     let mut rep = Report::new("C07", &cli);
-    rep.note("rule", json!("case = trajectory of 50..600 steps (constant velocity / accelerating / jittering / stop-and-go, growing/shrinking, rotating; coordinates 1..1e4, heights 1..1e3, weights 0.5x..2x the defaults) with a random predict/update pattern (gaps of several predicts). A textbook f64 Kalman filter with full F,H,Q(h),R(h) and gain by full matrix inverse runs in lock-step on the same f32 inputs. After every step two comparisons: (a) one-step differential - the reference is restarted from the library's own previous state (read through the guarded accessor) and must reproduce the library's next state: mean within 1e-3 sigma + 32 ulp_f32, every covariance entry within 5e-6 of the (previous) variance scale; (b) a free-running lock-step reference is run alongside for information only (its deviation maxima are reported; f32 error accumulates with the P/R conditioning over predict-only gaps); the scaled asymmetry is reported for information (the asymmetric part is judged entry by entry by the one-step comparison), positive-definiteness (min eigenvalue of the diagonally scaled matrix > 1e-4), cross-block zeros; distance() vs f64 squared Mahalanobis distance of the library's own state (2e-3 relative); stationary target; vector filter == per-point filters bit for bit; calculate_cost: inverted == 100 - direct on a grid of 1e4 distances incl. both gates +-1ulp for the box and the point filter. Non-trivial: every trajectory with >= 10 updates (distinct by input hash)."));
+    rep.note("rule", json!("case = trajectory of 50..600 steps (constant velocity / accelerating / jittering / stop-and-go, growing/shrinking, rotating; coordinates 1..1e4, heights 1..1e3, weights 0.5x..2x the defaults) with a random predict/update pattern (gaps of several predicts; a sixth of the trajectories contain one coasting episode of 60..320 predictions without update followed by a displaced re-appearance). A textbook f64 Kalman filter with full F,H,Q(h),R(h) and gain by full matrix inverse runs in lock-step on the same f32 inputs. After every step two comparisons: (a) one-step differential - the reference is restarted from the library's own previous state (read through the guarded accessor) and must reproduce the library's next state: mean within 1e-3 sigma + 32 ulp_f32, every covariance entry within 5e-6 of the (previous) variance scale; (b) a free-running lock-step reference is run alongside for information only (its deviation maxima are reported; f32 error accumulates with the P/R conditioning over predict-only gaps); the scaled asymmetry is reported for information (the asymmetric part is judged entry by entry by the one-step comparison), positive-definiteness (min eigenvalue of the diagonally scaled matrix > 1e-4), cross-block zeros; distance() vs f64 squared Mahalanobis distance of the library's own state (2e-3 relative); stationary target; vector filter == per-point filters bit for bit; calculate_cost: inverted == 100 - direct on a grid of 1e4 distances incl. both gates +-1ulp for the box and the point filter. Non-trivial: every trajectory with >= 10 updates (distinct by input hash)."));
     rep.note("assumptions", json!(["noise model as documented in the source: std = w*h (xc,yc,angle,h), constants for aspect; point filter unscaled", "tolerances carry >=10x head-room over the largest deviation observed on the pinned tree (see observed_maxima *_over_tol)"]));
     let n = cli.cases(6000, 40_000);
     for idx in cli.index_range(n) {
         let mut rng = Rng::for_case(cli.seed, cli.shard, idx);
         rep.eval();
-        let steps = 50 + rng.usize(if cli.small { 10 } else { 551 });
+        let mut steps = 50 + rng.usize(if cli.small { 10 } else { 551 });
+        // a sixth of the trajectories contain one long coasting episode: 60..320 consecutive predictions without any
+        // update (an occluded / lost object), after which measurements resume - possibly well away from the prediction
+        let coast: Option<(usize, usize)> = if !cli.small && rng.chance(1.0 / 6.0) {
+            let s = 3 + rng.usize(40);
+            let e = s + 60 + rng.usize(261);
+            steps = steps.max(e + 15);
+            Some((s, e))
+        } else {
+            None
+        };
         let wp = (1.0 / 20.0) * rng.log_uniform(0.5, 2.0);
         let wv = (1.0 / 160.0) * rng.log_uniform(0.5, 2.0);
         let (wp32, wv32) = (wp as f32, wv as f32);
@@ -337,7 +347,32 @@ fn main() {
                     pgood = false;
                 }
             }
-            if rng.chance(upd_p) {
+            let coasting = coast.map_or(false, |(s, e)| step >= s && step < e);
+            if good {
+                // Domain boundary of the f32 filter (not a verdict): the noise model scales with the filter's own predicted
+                // height h, measurement variance R = (wp*h)^2. During a gap the prior variance P grows like t^3 and, for a
+                // shrinking object, h is extrapolated towards zero, so R/P can fall below f32 resolution: the exact
+                // posterior R*P/(P+R) ~ R is then not representable next to P in the subtraction P - K S K^T, and at h = 0
+                // even the textbook posterior is singular. "SPD up to rounding" has no meaning there, so the box part of
+                // the trajectory ends (a tracker would have dropped the track long before) while an update would still
+                // leave >= 5 significant bits: R/P >= 2^-19 (constant height, default weights: ~460 predictions).
+                let (m0, c0) = st.verif_raw();
+                let r_pos = (wp * m0[4] as f64).powi(2);
+                if !(m0[4] > 0.0 && r_pos >= c0[0] as f64 * (0.5f64).powi(19)) {
+                    good = false;
+                    rep.count("box_trajectories_ended(measurement variance below 2^-19 of the prior variance)");
+                }
+            }
+            if coasting {
+                rep.count("coasting_steps(predict+distance,no update)");
+                if coast.map_or(false, |(_, e)| step + 1 == e) {
+                    rep.count("long_coasting_episodes");
+                    // the object re-appears displaced by up to a few box sizes
+                    px += rng.normal() * 2.0 * hcur;
+                    py += rng.normal() * 2.0 * hcur;
+                }
+            }
+            if !coasting && rng.chance(upd_p) {
                 updates += 1;
                 if good {
                     let hs = kf.x.at(4, 0);
